@@ -83,7 +83,7 @@ func c04Units(t core.Tier) []c04Unit {
 			us = append(us, c04Unit{"chain4", i})
 		}
 	}
-	us = append(us, c04Unit{"text", 0}, c04Unit{"calls", 0}, c04Unit{"chain4q", 0}, c04Unit{"lists", 0})
+	us = append(us, c04Unit{"text", 0}, c04Unit{"calls", 0}, c04Unit{"chain4q", 0}, c04Unit{"lists", 0}, c04Unit{"nested", 0})
 	for i := 0; i < 21; i++ { // one unit per Boolean leaf (the first operand)
 		us = append(us, c04Unit{"bool", i})
 	}
@@ -148,6 +148,45 @@ func (c04) RunUnit(t core.Tier, u int, r *core.Reporter) {
 				}
 				run(ref.Btw(e1.Clone(), ref.Bin("-", ref.N(1), ref.N(1)), ref.Bin("+", ref.N(2), ref.Fl(1.5))), true)
 				run(ref.In(e1.Clone(), ref.N(2), ref.Bin("+", ref.N(1), ref.N(2)), ref.Fl(1.5)), true)
+			}
+		}
+	case "nested":
+		// a case mapping applied to the result of another one, over text whose
+		// letters do not map one to one (micro sign, final sigma, Kelvin sign,
+		// dotless / dotted i, sharp s, a title-case digraph): no call is redundant
+		us := [][]store.Pair{{{K: "a", V: "5 \u00b5m"}, {K: "b", V: "\u03c2\u03c3"}, {K: "c", V: "\u212a9"}, {K: "d", V: "\u01c5x"}, {K: "e", V: "\u00dfS"}, {K: "f", V: "\u0130\u0131iI"}, {K: "g", V: "plain"}, {K: "\u00b5", V: "\u212b\u2126"}}}
+		runOn := func(e *ref.Expr, isBool bool) {
+			for _, ps := range us {
+				c := c04Case{Expr: e, Bool: isBool, Store: ps}
+				if !r.Begin(func() *core.Failure {
+					return &core.Failure{Property: "C04", Leg: "folded-vs-unfolded", Case: c.text(), Data: core.MustJSON(c)}
+				}) {
+					continue
+				}
+				fs, nontrivial, status, obs, ev := c04Judge(&c)
+				r.Evals(ev)
+				for _, f := range fs {
+					status = "violation:" + f.Sig
+					r.Fail(f)
+				}
+				r.Case(c.text(), nontrivial, status)
+				r.Observed(obs)
+			}
+		}
+		fns := []string{"upper", "lower"}
+		args := []*ref.Expr{ref.Value(), ref.Key(), ref.Bin("+", ref.Key(), ref.Value()), ref.Bin("+", ref.Value(), ref.S("\u212a")), ref.S("\u00b5\u03c2"), ref.Call("str", ref.Call("strlen", ref.Value()))}
+		for _, f := range fns {
+			for _, g := range fns {
+				for _, a := range args {
+					e := ref.Call(f, ref.Call(g, a.Clone()))
+					runOn(e, false)
+					runOn(ref.Call("strlen", e.Clone()), false)
+					runOn(ref.Bin("=", e.Clone(), ref.Call(f, a.Clone())), true)
+					runOn(ref.Bin("+", e.Clone(), ref.S("!")), false)
+					for _, h := range fns {
+						runOn(ref.Call(h, e.Clone()), false)
+					}
+				}
 			}
 		}
 	case "lists":
